@@ -66,6 +66,7 @@ BASE = {
     "empty": lambda: set(),
     "subset": lambda a, b: set(a) <= set(b),
     "prodset": _prodset,
+    "count_in": lambda xs, k, t: sum(1 for x in list(xs)[: max(t, 0)] if x == k),
     "colsum": lambda rows, field, t: sum(r[field] for r in list(rows)[: max(t, 0)]),
     "colcount": lambda rows, field, k, t: sum(1 for r in list(rows)[: max(t, 0)] if r[field] == k),
     "get": lambda d, k, default: d.get(k, default),
